@@ -327,6 +327,18 @@ def oracle(ctx, extra):
     n = 0
     words = 0
     seen = set()
+    # corner documents accounted on every run (the sampled ones meet them only now and then): references that RESOLVE - full, collapsed
+    # and shortcut, as links and images - whose text holds complete links, emphasis, code, brackets; under the core and all plugins
+    for base in ["[Wd [Wd](/Wd)][lbl]\n\n[lbl]: /Wd\n", "[Wd *Wd [Wd][lbl]*][lbl]\n\n[lbl]: /Wd 'Wd'\n", "![Wd [Wd](/Wd) Wd][lbl] Wd [lbl] Wd [lbl][]\n\n[lbl]: /Wd\n",
+                 "[Wd <http://Wd.Wd> [Wd][lbl]\n\n[lbl]: /Wd\n", "*Wd [Wd `Wd` [Wd]][lbl] Wd*\n\n> [lbl]: /Wd\n", "[Wd ![Wd](/Wd)][lbl] [Wd [Wd] Wd][lbl]\n\n[lbl]: </Wd Wd> (Wd)\n",
+                 "- [Wd][lbl] Wd\n- [lbl]: /Wd\n\n# [Wd [Wd](/Wd 'Wd')][lbl]\n"]:
+        for plugins in ([], PLUGINS):
+            doc, nw = uniquify(base.replace("lbl", "CDATA"), "w")     # (a reserved word is left alone)
+            doc = doc.replace("CDATA", "x900q")
+            if check_doc(m, doc, plugins, fails):
+                n += 1
+                words += nw
+                seen.add(doc)
     for i in range(ctx.n(3000, 80000)):
         plugins = [] if i % 3 == 0 else (PLUGINS if i % 3 == 1 else r.sample(PLUGINS, r.randint(1, 5)) + (["speedup"] if r.random() < 0.5 else []))
         names = [p for p in plugins if p != "speedup"]
